@@ -402,6 +402,11 @@ class StoredBinLeg(object):
             if fid not in hit:
                 return Failure("region(chr1:%d-%d, completely_within=True) does not return %s stored exactly there" % (s_, e_, fid),
                                sig={"kind": "stored-bin-query"})
+        whole = set(x.id for x in db.region(("chr1", 1, MAXC), completely_within=True))
+        inside = set("f%d" % i for i, (s_, e_) in enumerate(finals) if e_ <= MAXC)
+        if not inside <= whole:
+            return Failure("region(chr1:1-2^29, completely_within=True) misses stored features %r" % sorted(inside - whole),
+                           sig={"kind": "stored-bin-query"})
         return None
 
 
